@@ -52,6 +52,8 @@ type c05Scenario struct {
 	tmpl   *pgfake.Server
 	Topics []string
 	Bases  map[string][]p2pmsg.Message // valid messages per topic for this state
+	// Degenerate[topic] = how many of the last bases of the topic address the degenerate keyper sets
+	Degenerate map[string]int
 }
 
 type c05Target struct {
@@ -262,6 +264,7 @@ func buildC05Scenarios() []*c05Scenario {
 						dm.Eon = deg
 						sc.Bases[kprtopics.DecryptionKeys] = append(sc.Bases[kprtopics.DecryptionKeys], dm)
 					}
+					sc.Degenerate = map[string]int{kprtopics.DecryptionKeys: 2}
 				}
 				epk, err := p2pmsg.NewSignedEonPublicKey(simInstanceID, fix.Real.EonPublicKey().Marshal(), 100, c05CfgIdx, 20, uni.Keys[1])
 				must(err)
@@ -292,6 +295,7 @@ func buildC05Scenarios() []*c05Scenario {
 			dm.Eon = deg
 			sc.Bases[kprtopics.DecryptionKeys] = append(sc.Bases[kprtopics.DecryptionKeys], dm)
 		}
+		sc.Degenerate = map[string]int{kprtopics.DecryptionKeys: 2}
 		c05Scenarios = append(c05Scenarios, sc)
 	}
 	return c05Scenarios
@@ -478,6 +482,37 @@ func mutateProto(rt *rapid.T, l string, m protoreflect.Message, depth int) strin
 	if fields.Len() == 0 {
 		return "none"
 	}
+	if depth == 0 && rapid.IntRange(0, 11).Draw(rt, l+"topbit") == 0 {
+		// sign-wrap class: one 64-bit integer of the tree (the last element of a list preferred: ascending
+		// lists stay ascending) gets a value with the top bit set, nothing else changes
+		var sites, ints, lastInts []leafSite
+		collectLeafSites(m, "", 0, &sites)
+		for _, st := range sites {
+			if k := st.fd.Kind(); k == protoreflect.Uint64Kind || k == protoreflect.Int64Kind || k == protoreflect.Fixed64Kind {
+				ints = append(ints, st)
+				if st.idx >= 0 && st.idx == st.m.Get(st.fd).List().Len()-1 {
+					lastInts = append(lastInts, st)
+				}
+			}
+		}
+		if len(lastInts) > 0 && rapid.IntRange(0, 2).Draw(rt, l+"topbitLast") > 0 {
+			ints = lastInts
+		}
+		if len(ints) > 0 {
+			st := ints[rapid.IntRange(0, len(ints)-1).Draw(rt, l+"topbitSite")]
+			v := rapid.SampledFrom([]uint64{1 << 63, 1<<63 + 1, math.MaxUint64, math.MaxUint64 - 1, 1<<63 - 1}).Draw(rt, l+"topbitV")
+			val := protoreflect.ValueOfUint64(v)
+			if st.fd.Kind() == protoreflect.Int64Kind {
+				val = protoreflect.ValueOfInt64(int64(v))
+			}
+			if st.idx < 0 {
+				st.m.Set(st.fd, val)
+			} else {
+				st.m.Mutable(st.fd).List().Set(st.idx, val)
+			}
+			return "topbit:" + st.path
+		}
+	}
 	if depth == 0 && rapid.IntRange(0, 9).Draw(rt, l+"leafmode") < 4 {
 		// every populated scalar of the tree is equally likely, however deep it sits: the top-down walk
 		// below reaches an element of a list in a nested message only rarely
@@ -585,7 +620,19 @@ func genC05Input(rt *rapid.T, sc *c05Scenario) (topic string, data []byte, desc 
 func genC05InputL(rt *rapid.T, sc *c05Scenario, lp string) (topic string, data []byte, desc string) {
 	topic = rapid.SampledFrom(sc.Topics).Draw(rt, "topic")
 	bases := sc.Bases[topic]
-	base := proto.Clone(bases[rapid.IntRange(0, len(bases)-1).Draw(rt, "base")]).(p2pmsg.Message)
+	// the bases for the degenerate keyper sets (the last two of the keys topic, where present) get one pick
+	// in six: mutants of the ordinary, fully signed messages must not become rarer through them
+	bi := 0
+	if deg := sc.Degenerate[topic]; deg > 0 && len(bases) > deg {
+		if rapid.IntRange(0, 5).Draw(rt, "degenerateBase") == 0 {
+			bi = len(bases) - deg + rapid.IntRange(0, deg-1).Draw(rt, "base")
+		} else {
+			bi = rapid.IntRange(0, len(bases)-deg-1).Draw(rt, "base")
+		}
+	} else {
+		bi = rapid.IntRange(0, len(bases)-1).Draw(rt, "base")
+	}
+	base := proto.Clone(bases[bi]).(p2pmsg.Message)
 	var muts []string
 	nm := rapid.SampledFrom([]int{0, 1, 1, 1, 2, 2, 3}).Draw(rt, "nMut")
 	for k := 0; k < nm; k++ {
@@ -703,7 +750,7 @@ func c05Run(tg *c05Target, topic string, data []byte) (sig, detail string, accep
 
 func TestC05_StructuredMutants(t *testing.T) {
 	rec := recorder("C05")
-	rec.AddRule("per node flavour (core, Gnosis, Shutter service, Primev, snapshot keyper, Gnosis access node) x database state (empty, member with successful DKG n=3 t=2, member with keys/shares/signatures present, non-member; access node empty/synced; Gnosis, service and access node also know two degenerate keyper sets - threshold 0 with members, no members at all - and get base messages for them) x subscribed topic: a valid envelope of the topic's message type (with the flavour's extra) is mutated by a generic structure-aware protobuf mutator (every scalar replaced by boundary values 0,1,64..66,2^31,2^32,2^63,2^64-1; every list cleared/shortened/lengthened/swapped independently of its sibling list; every bytes/string field emptied/truncated/extended/flipped/randomised/resized to 31..96; sub-messages cleared/emptied/mutated recursively; oneof swapped), plus envelope mutations (version, missing/unknown/swapped Any type, trace) and raw truncation / bit flips / random bytes. The combined topic validator runs on the bytes; handlers run only for accepted inputs in the same state (libp2p's contract). Oracle: no panic, returns a verdict / (msgs, err), allocation during the call <= 8 MiB + 2 KiB*len(input); 60 s watchdog = inconclusive. non-trivial = input decodes to a message of the topic's type and reaches the handler-specific validator; distinct by (scenario, input bytes)")
+	rec.AddRule("per node flavour (core, Gnosis, Shutter service, Primev, snapshot keyper, Gnosis access node) x database state (empty, member with successful DKG n=3 t=2, member with keys/shares/signatures present, non-member; access node empty/synced; Gnosis, service and access node also know two degenerate keyper sets - threshold 0 with members, no members at all - and get base messages for them) x subscribed topic: a valid envelope of the topic's message type (with the flavour's extra) is mutated by a generic structure-aware protobuf mutator (every scalar replaced by boundary values 0,1,64..66,2^31,2^32,2^63,2^64-1; one case in twelve only sets one 64-bit integer - the last element of a list preferred - to a value with the top bit set; every list cleared/shortened/lengthened/swapped independently of its sibling list; every bytes/string field emptied/truncated/extended/flipped/randomised/resized to 31..96; sub-messages cleared/emptied/mutated recursively; oneof swapped), plus envelope mutations (version, missing/unknown/swapped Any type, trace) and raw truncation / bit flips / random bytes. The combined topic validator runs on the bytes; handlers run only for accepted inputs in the same state (libp2p's contract). Oracle: no panic, returns a verdict / (msgs, err), allocation during the call <= 8 MiB + 2 KiB*len(input); 60 s watchdog = inconclusive. non-trivial = input decodes to a message of the topic's type and reaches the handler-specific validator; distinct by (scenario, input bytes)")
 	rec.Assume("pgfake; panics inside goroutines spawned by handlers would not be observable (none are spawned today); libp2p delivers only validator-accepted messages to handlers")
 	scs := buildC05Scenarios()
 	for si, sc := range scs {
